@@ -478,7 +478,7 @@ impl Top {
             })
             .collect();
         let s = format!(
-            "{{\"kind\":\"fn\",\"path\":{},\"span\":{},\"attrs\":[{}],\"vis\":{},\"sig\":{},\"ret\":{},\"where\":{},\"body\":{},\"tail\":{},\"trait_impl\":{},\"trait_def\":{},\"is_async\":{},\"params\":[{}],\"loops\":[{}],\"tries\":[{}],\"macros\":[{}],\"returns\":[{}],\"instruments\":[{}],\"closures\":[{}],\"async_blocks\":[{}],\"awaits\":[{}],\"cfg\":[{}],\"cfg_nodes\":[{}],\"leaf_tails\":[{}],\"nested_items\":[{}],\"let_loops\":[{}],\"value_breaks\":[{}]}}",
+            "{{\"kind\":\"fn\",\"path\":{},\"span\":{},\"attrs\":[{}],\"vis\":{},\"sig\":{},\"ret\":{},\"where\":{},\"body\":{},\"tail\":{},\"trait_impl\":{},\"trait_def\":{},\"is_async\":{},\"params\":[{}],\"loops\":[{}],\"tries\":[{}],\"macros\":[{}],\"returns\":[{}],\"instruments\":[{}],\"closures\":[{}],\"async_blocks\":[{}],\"awaits\":[{}],\"cfg\":[{}],\"cfg_nodes\":[{}],\"leaf_tails\":[{}],\"nested_items\":[{}],\"let_loops\":[{}],\"value_breaks\":[{}],\"stmts\":[{}]}}",
             js(&path),
             sp(br(whole)),
             all_attrs.iter().map(|a| sp(*a)).collect::<Vec<_>>().join(","),
@@ -505,7 +505,8 @@ impl Top {
             leaves.iter().map(|a| sp(*a)).collect::<Vec<_>>().join(","),
             inner.nested_items.iter().map(|a| sp(*a)).collect::<Vec<_>>().join(","),
             inner.let_loops.join(","),
-            inner.value_breaks.join(",")
+            inner.value_breaks.join(","),
+            block.map(|b| b.stmts.iter().map(|st| sp(br(st.span()))).collect::<Vec<_>>().join(",")).unwrap_or_default()
         );
         self.out.push(s);
         for f in nested_fns {
